@@ -483,6 +483,62 @@ func init() {
 		c.Group("C13/index-identity", "the sweep building the key-range index drops a rule from the active set by its full (group id, id) key", func() { ruleSortedRulesIdentity(c); ruleRangeRulesOwnSlice(c) })
 		c.Group("C13/key-format", "(shared with C17) rules and rule groups are saved, loaded and deleted under one path prefix each", func() { ruleKeyFamilies(c) })
 		c.Group("C13/borrowed-immutable", "rules handed out by the manager are never edited in place", func() { ruleBorrowedImmutable(c) })
-		c.Group("C13/load-and-save-keys", "rules are saved under their canonical key, mis-keyed entries are repaired at load, write errors abort", func() { ruleLoadRepair(c); ruleInitializeOrder(c); ruleFreshManagerPerTerm(c) })
+		c.Group("C13/load-and-save-keys", "rules are saved under their canonical key, mis-keyed entries are repaired at load, write errors abort", func() { ruleLoadRepair(c); ruleInitializeOrder(c); ruleFreshManagerPerTerm(c); ruleLoadedRecordsAreDistinct(c) })
 	})
+}
+
+// ruleLoadedRecordsAreDistinct: each record loaded back is decoded into an
+// object of its own. The load callbacks keep a pointer to what they decoded (in
+// the rule / group maps, in the repair list); a decode target declared outside
+// the callback is one object shared by every entry, which then all read as the
+// record loaded last.
+func ruleLoadedRecordsAreDistinct(c *Ctx) {
+	P := c.P
+	rule := c.Prop + "/load-and-save-keys"
+	n := 0
+	for _, name := range []string{"loadRules", "loadGroups"} {
+		fn := P.Method(plc, "RuleManager", name)
+		c.saw(fnName(fn))
+		for _, cb := range fn.AnonFuncs {
+			k := 0
+			for _, b := range cb.Blocks {
+				for _, ins := range b.Instrs {
+					var kept ssa.Value
+					switch x := ins.(type) {
+					case *ssa.MapUpdate:
+						kept = x.Value
+					case *ssa.Store:
+						// an element of a list being appended to (append(list, &r) stores into the new backing array)
+						if _, isIdx := x.Addr.(*ssa.IndexAddr); isIdx {
+							kept = x.Val
+						}
+					}
+					if kept == nil {
+						continue
+					}
+					// a pointer to a record type of this package (*Rule, *RuleGroup)
+					pt, isPtr := kept.Type().Underlying().(*types.Pointer)
+					if !isPtr {
+						continue
+					}
+					if nn := namedOf(pt.Elem()); nn == nil || nn.Obj().Pkg() == nil || nn.Obj().Pkg().Path() != modPath+"/"+plc {
+						continue
+					}
+					k++
+					n++
+					own := false
+					switch a := strip(kept).(type) {
+					case *ssa.Alloc:
+						own = a.Parent() == cb
+					case *ssa.Call:
+						own = true // a constructor's result
+					}
+					c.Check(own, rule, fmt.Sprintf("record kept #%d by the callback of %s", k, fnName(fn)), "the object a load callback keeps was created in that call of the callback: one object per stored record", P.instrPos(ins), "the kept pointer refers to an object that outlives the callback (shared by every record)")
+				}
+			}
+		}
+	}
+	if n < 2 {
+		c.Undec(rule, "objects kept by the load callbacks of the rule manager", "at least 2 (rules, groups)", "", fmt.Sprint(n))
+	}
 }
